@@ -766,9 +766,9 @@ func (ex *Exec) lockCheck(st *State, m MapV, write bool) {
 	c := ex.ctx
 	wHeld := c.Eq(w, c.BVConst(64, 1))
 	if write {
-		ex.oblige(st, wHeld, "assert", "registry written only with the write lock held", "")
+		ex.oblige(st, wHeld, "monitor", "registry written only with the write lock held", "")
 	} else {
-		ex.oblige(st, c.Or(wHeld, c.BvCmp(OBvSLt, c.BVConst(64, 0), r)), "assert", "registry read only with the lock held", "")
+		ex.oblige(st, c.Or(wHeld, c.BvCmp(OBvSLt, c.BVConst(64, 0), r)), "monitor", "registry read only with the lock held", "")
 	}
 }
 
@@ -1221,7 +1221,68 @@ func (ex *Exec) doReturn(st *State, fr *Frame, x *ssa.Return) {
 	if len(st.frames) == 0 {
 		return
 	}
+	if isDefer && len(st.frames) == 1 && fr.fn.Name() == "init" && st.globalOf == nil {
+		ex.markGlobals(st)
+	}
 	ex.finishCall(st, res, isDefer)
+}
+
+// markGlobals records, once package initialisation is over, which heap objects are reachable from
+// package-level variables of the module under test (the write monitor of C10 reports stores to them).
+func (ex *Exec) markGlobals(st *State) {
+	st.globalOf = map[int]string{}
+	st.gwrites = map[string]bool{}
+	var walk func(v Value, name string, depth int)
+	visit := func(obj int, name string, depth int) {
+		if obj == 0 {
+			return
+		}
+		if _, seen := st.globalOf[obj]; seen {
+			return
+		}
+		st.globalOf[obj] = name
+		walk(st.hget(obj), name, depth+1)
+	}
+	walk = func(v Value, name string, depth int) {
+		if depth > 12 {
+			return
+		}
+		switch x := v.(type) {
+		case *StructV:
+			for _, f := range x.F {
+				walk(f, name, depth)
+			}
+		case *ArrayV:
+			for _, e := range x.E {
+				walk(e, name, depth)
+			}
+		case PtrV:
+			visit(x.Obj, name, depth)
+		case SliceV:
+			visit(x.Obj, name, depth)
+		case MapV:
+			visit(x.Obj, name, depth)
+		case IfaceV:
+			if x.T != nil {
+				walk(x.V, name, depth)
+			}
+		case *MapObj:
+			for i := range x.Keys {
+				walk(x.Keys[i], name, depth)
+				walk(x.Vals[i], name, depth)
+			}
+		case FuncV:
+			for _, b := range x.Bind {
+				walk(b, name, depth)
+			}
+		}
+	}
+	for g, obj := range st.globals {
+		if g.Pkg == nil || !strings.HasPrefix(g.Pkg.Pkg.Path(), modulePath) || strings.HasPrefix(g.Name(), "verif") || strings.HasPrefix(g.Name(), "init$") {
+			continue
+		}
+		visit(obj, g.Pkg.Pkg.Name()+"."+g.Name(), 0)
+	}
 }
 
 // finishCall delivers a call result to the (new) top frame and advances it.
